@@ -1009,6 +1009,60 @@ def _reuse_job(a):
     return cnt, None
 
 
+def _layout_job(a):
+    """map_games into destinations of other legal memory layouts."""
+    from moptipyapps.ttp.game_encoding import map_games
+    n, rounds = a
+    seqs = _nodes(n, rounds, True)
+    xdt = real_space(n, rounds).dtype
+    ydt = y_dtype(n)
+    days = (n - 1) * rounds
+    cnt = 0
+    for s in seqs:
+        x = np.array(s, xdt)
+        exp = decode_model(n, rounds, s)[0].astype(ydt)
+        big = np.full((2 * days, 2 * n), FILL, ydt)
+        for lname, y in (
+                ("Fortran-ordered array", np.asfortranarray(
+                    np.full((days, n), FILL, ydt))),
+                ("transposed view of an (n, days) array",
+                 np.full((n, days), FILL, ydt).T),
+                ("strided view", big[::2, ::2]),
+                ("view with reversed rows",
+                 np.full((days, n), FILL, ydt)[::-1])):
+            try:
+                map_games(x, y)
+            except (TypeError, ValueError):
+                continue    # refused loudly
+            cnt += 1
+            if not np.array_equal(np.asarray(y), exp):
+                return cnt, (list(s), lname, np.asarray(y).tolist(),
+                             exp.tolist())
+    return cnt, None
+
+
+def part_layouts(ctx):
+    specs = [(2, 2), (2, 3), (3, 1), (3, 2), (4, 1)]
+    out = pmap(_layout_job, specs, ctx.jobs)
+    cnt = sum(o[0] for o in out)
+    ctx.add("evaluations", cnt)
+    ctx.add("traces_validated_against_impl", cnt)
+    ctx.part("destination_memory_layouts", settings=[list(s) for s in specs],
+             decodes=cnt)
+    for (n, rounds), o in zip(specs, out):
+        if o[1] is not None:
+            s, lname, got, exp = o[1]
+            ctx.violation(
+                "decode|plan differs from the earliest-free-day model|"
+                "destination layout",
+                f"n={n} rounds={rounds} x={s}: map_games into a destination "
+                f"of the right shape and type given as {lname} leaves "
+                f"{got}, expected {exp}",
+                {"kind": "layout", "n": n, "rounds": rounds, "x": s,
+                 "layout": lname})
+            break
+
+
 def part_reuse(ctx):
     specs = [(2, 2, False), (2, 3, False), (2, 4, False), (2, 5, False),
              (4, 1, ctx.quick)]
@@ -1087,6 +1141,7 @@ def run(ctx: Ctx) -> None:
     part_search_space(ctx)
     part_public_trees(ctx, nontrivial)
     part_reuse(ctx)
+    part_layouts(ctx)
     outcome_classes = 0
     # complete trees through the compiled driver
     trees = [(2, r, 1) for r in range(2, R_MAX + 1)]
@@ -1170,6 +1225,23 @@ def replay(ctx: Ctx, rep: dict) -> bool:
         ok, y, ym = replay_reuse(rep["n"], rep["rounds"], rep["first"],
                                  rep["second"])
         print(f"second decode observed={y.tolist()} model={ym.tolist()}")
+        return ok
+    if kind == "layout":
+        from moptipyapps.ttp.game_encoding import map_games
+        n, rounds, x = rep["n"], rep["rounds"], rep["x"]
+        days = (n - 1) * rounds
+        ydt = y_dtype(n)
+        exp = decode_model(n, rounds, x)[0].astype(ydt)
+        ok = True
+        for lname, y in (("Fortran-ordered array", np.asfortranarray(
+                np.full((days, n), FILL, ydt))),
+                ("transposed view", np.full((n, days), FILL, ydt).T),
+                ("reversed rows", np.full((days, n), FILL, ydt)[::-1])):
+            map_games(np.array(x, real_space(n, rounds).dtype), y)
+            same = np.array_equal(np.asarray(y), exp)
+            print(f"{lname}: {np.asarray(y).tolist()} "
+                  f"{'=' if same else '!='} model {exp.tolist()}")
+            ok = ok and same
         return ok
     k, y, ym = check_case(rep["n"], rep["rounds"], rep["x"], rep.get("fill"))
     print(f"n={rep['n']} rounds={rep['rounds']} x={rep['x']} "
